@@ -7,7 +7,9 @@ factories, Adapter / PurePythonAdapter classes, conditional factories that
 return None as a pure function of the adaptee's recorded chain or of a
 per-object flag, lazily imported string protocols).  All queries of a case run
 as one shuffled history on the same manager (several objects per type when
-factories depend on the object; optional late ABC registration in between).
+factories depend on the object; optional late ABC registration in between;
+re-assignment of the same object to the same trait after its flag was flipped
+or an offer was registered on the live manager).
 
 Oracle: brute-force enumeration of every sequence of distinct applicable
 offers whose factories all succeed (run on a pure *model* of the factories),
@@ -55,7 +57,12 @@ META = {
              "(object, target class) queries of a graph run in one shuffled order on the SAME manager "
              "(so objects of one type with different best chains follow each other), in 30% of the "
              "graphs with an ABC a late ABC.register() happens between two queries (the enumeration "
-             "is recomputed from there). Every (object, target "
+             "is recomputed from there). After 8% of the queries the SAME object is assigned twice "
+             "to the same AdaptsTo / Supports / Instance(adapt=...) / List / Union trait of the same "
+             "holder instance, and between the two assignments the object's flag is flipped, an "
+             "offer is registered on the live manager (own stratum: a null adapter for the object's "
+             "own type), or an ABC registration is made; the stored value and the shadow after the "
+             "second assignment are judged against the enumeration at that moment. Every (object, target "
              "class) query goes through adapt / adapt+default / supports_protocol / the global "
              "functions and through Supports, AdaptsTo, Instance(adapt=yes|default), List(Supports), "
              "Union(Supports, Int) assignment and the Python-level validate, each judged against the "
@@ -79,7 +86,17 @@ META = {
                   "history_previous_chain_works_here_but_is_not_minimal": 55,
                   "history_single_step_candidates_differ_from_previous_object": 250,
                   "late_abc_registrations": 140,
-                  "queries_after_late_abc_registration": 3000},
+                  "queries_after_late_abc_registration": 3000,
+                  "reassignments_of_same_object": 3200,
+                  "reassignments_with_changed_adaptation_answer": 530,
+                  "reassignments_with_changed_answer_via_AdaptsTo": 160,
+                  "reassignments_with_changed_answer_via_Supports": 100,
+                  "reassignments_chain_to_different_chain": 200,
+                  "reassignments_after_flag-flipped": 1500,
+                  "reassignments_after_offer-registered": 600,
+                  "reassignments_after_null-adapter-for-own-type-registered": 250,
+                  "reassignments_after_abc-registered": 240,
+                  "live_offer_registrations": 850},
         "thorough": {"evaluations": 2700000, "adapt_results_judged": 1350000, "chains_found": 135000,
                      "chains_len2plus": 22500, "chains_len3plus": 3300, "failures_checked": 195000,
                      "provides_checked": 225000, "specificity_checked": 18000,
@@ -94,7 +111,17 @@ META = {
                      "history_previous_chain_works_here_but_is_not_minimal": 1650,
                      "history_single_step_candidates_differ_from_previous_object": 7500,
                      "late_abc_registrations": 4200,
-                     "queries_after_late_abc_registration": 90000},
+                     "queries_after_late_abc_registration": 90000,
+                     "reassignments_of_same_object": 96000,
+                     "reassignments_with_changed_adaptation_answer": 15900,
+                     "reassignments_with_changed_answer_via_AdaptsTo": 4800,
+                     "reassignments_with_changed_answer_via_Supports": 3000,
+                     "reassignments_chain_to_different_chain": 6000,
+                     "reassignments_after_flag-flipped": 45000,
+                     "reassignments_after_offer-registered": 18000,
+                     "reassignments_after_null-adapter-for-own-type-registered": 7500,
+                     "reassignments_after_abc-registered": 7200,
+                     "live_offer_registrations": 25500},
     },
     "assumptions": [
         "issubclass is the 'provides' relation (as AdaptationManager.provides_protocol documents)",
@@ -641,6 +668,8 @@ TRAIT_ROUTES = ("Supports", "AdaptsTo", "InstanceYes", "InstanceDefault", "Insta
 TRAIT_PREFIX = {"Supports": "sup", "AdaptsTo": "ada", "InstanceYes": "iny", "InstanceDefault": "ind",
                 "InstanceDefaultFactory": "inf", "ListSupports": "lst", "UnionSupports": "uni",
                 "PyValidate": "sup"}
+REASSIGN_ROUTES = ("AdaptsTo", "AdaptsTo", "AdaptsTo", "Supports", "Supports", "InstanceYes",
+                   "InstanceDefault", "InstanceDefaultFactory", "ListSupports", "UnionSupports")
 MANAGER_ROUTES = ("adapt", "adapt-default-kw", "adapt-default-pos", "adapt-none", "supports_protocol",
                   "global-adapt", "global-supports_protocol")
 
@@ -889,39 +918,104 @@ def run_case(ctx, gi):
                 except (TypeError, AttributeError):
                     ctx.count("uninstantiable_sources")
                     break
-                objs.append((src, obj, f))
+                objs.append([src, obj, f])
         queries = [(oi, ti) for oi in range(len(objs)) for ti in range(len(classes))]
         rng.shuffle(queries)                        # one interleaved history per manager
         late_at = rng.randrange(len(queries)) if late and queries else -1
         enum_cache = {}
         last_seen = {}                              # (src, ti) -> (oi, status, minset, observed chain)
-        for qi, (oi, ti) in enumerate(queries):
-            if qi == late_at:
-                pairs = [(c, o) for c in classes if isinstance(c, abc.ABCMeta) for o in classes
-                         if o is not c and not sub(o, c) and not sub(c, o)]
-                if pairs:
-                    c, o = rng.choice(pairs)
-                    try:
-                        c.register(o)
-                    except (RuntimeError, TypeError):
-                        pass
-                    else:
-                        cache.clear()
-                        enum_cache.clear()
-                        desc["late_registration"] = {"before_query": qi, "abc": c.__name__,
-                                                     "registered": o.__name__}
-                        transitive = all(sub(a, c3) for a in classes for b in classes if sub(a, b)
-                                         for c3 in classes if sub(b, c3))
-                        try:
-                            npaths = {c2: count_paths(c2, offers, sub, 4 * PATH_CAP) for c2 in classes}
-                        except _Cap:
-                            ctx.count("late_registration_made_graph_too_large")
-                            break
-                        cyclic = any(a is not b and sub(a.to, b.frm) and sub(b.to, a.frm) for a in offers
-                                     for b in offers) or any(sub(a.to, a.frm) for a in offers)
-                        ctx.count("late_abc_registrations")
+        live = {"offers": 0, "abc": 0, "general": 0, "own_null": 0}
+
+        def recount(candidate_offers, cap=4 * PATH_CAP):
+            """npaths for the (changed) graph, or None when it became too large."""
+            try:
+                return {c2: count_paths(c2, candidate_offers, sub, cap) for c2 in classes}
+            except _Cap:
+                return None
+
+        def is_cyclic():
+            return any(a is not b and sub(a.to, b.frm) and sub(b.to, a.frm) for a in offers
+                       for b in offers) or any(sub(a.to, a.frm) for a in offers)
+
+        def late_abc_registration(qi):
+            """SomeABC.register(cls) on the live hierarchy -> 'done' | 'none' | 'too-large'."""
+            nonlocal transitive, npaths, cyclic
+            pairs = [(c, o) for c in classes if isinstance(c, abc.ABCMeta) for o in classes
+                     if o is not c and not sub(o, c) and not sub(c, o)]
+            if not pairs:
+                return "none"
+            c, o = rng.choice(pairs)
+            try:
+                c.register(o)
+            except (RuntimeError, TypeError):
+                return "none"
+            cache.clear()
+            enum_cache.clear()
+            desc.setdefault("late_registrations", []).append(
+                {"before_query": qi, "abc": c.__name__, "registered": o.__name__})
+            desc.setdefault("late_registration", desc["late_registrations"][0])
+            transitive = all(sub(a, c3) for a in classes for b in classes if sub(a, b)
+                             for c3 in classes if sub(b, c3))
+            np2 = recount(offers)
+            if np2 is None:
+                ctx.count("late_registration_made_graph_too_large")
+                return "too-large"
+            npaths = np2
+            cyclic = is_cyclic()
+            live["abc"] += 1
+            ctx.count("late_abc_registrations")
+            return "done"
+
+        def adapted_slot(route, ti):
+            """The object in which a trait exposes the (possibly) adapted value."""
+            name = "%s%d" % (TRAIT_PREFIX[route], ti)
+            if route == "AdaptsTo":
+                return h.__dict__.get(name + "_", MISSING)
+            v = getattr(h, name)
+            if route == "ListSupports":
+                return v[0] if len(v) == 1 else MISSING
+            return v
+
+        def live_offer_registration(qi, src, tgt, own_null=False):
+            """register_offer / register_factory / register_provides on the LIVE
+            manager in the middle of the history -> 'done' | 'none'."""
+            nonlocal npaths, cyclic, flagged
+            ups = [c for c in classes if sub(src, c)]
+            frm = rng.choice(ups) if rng.random() < 0.7 else rng.choice(classes)
+            to = tgt if rng.random() < 0.7 else rng.choice(classes)
+            o = Off(frm, to, rng.choice(("always", "always", "always", "pyadapter", "provides", "identity",
+                                         "flagset", "flagclear", "raw", "never")))
+            if own_null:
+                o = Off(src, tgt, rng.choice(("provides", "identity")))
+            o.idx = len(offers)
+            if o.kind in FLAG_KINDS:
+                o.param = rng.choice((1, 2))
+            np2 = recount(offers + [o], PATH_CAP)
+            if np2 is None:
+                return "none"
+            offers.append(o)
+            f = real_factory(o)
+            if o.kind == "provides":
+                o.how = "register_provides (live)"
+                m.register_provides(o.frm, o.to)
+            elif rng.random() < 0.5:
+                o.how = "factory (live)"
+                m.register_factory(f, o.frm, o.to)
+            else:
+                o.how = "offer (live)"
+                m.register_offer(AdaptationOffer(factory=f, from_protocol=o.frm, to_protocol=o.to))
+            desc["offers"].append(o.spec() + [{"before_query": qi}])
+            enum_cache.clear()
+            npaths = np2
+            cyclic = is_cyclic()
+            flagged = flagged or o.kind in FLAG_KINDS
+            live["offers"] += 1
+            live["own_null" if own_null else "general"] += 1
+            ctx.count("live_offer_registrations")
+            return "done"
+
+        def expectation(oi, ti):
             src, obj, flag = objs[oi]
-            tgt = classes[ti]
             if (src, flag) not in enum_cache:
                 enum_cache[(src, flag)] = enumerate_chains(src, offers, sub, flag)
             succ, fail = enum_cache[(src, flag)]
@@ -932,7 +1026,46 @@ def run_case(ctx, gi):
             # calls per such sequence, i.e. >= 100x headroom (the counter
             # calls_using_over_5pct_of_step_budget stays 0)
             limit = (20000 + 5000 * np_) if profiled else (5000 + 1500 * np_)
-            e = analyse(src, tgt, offers, succ, fail, sub, transitive, flag)
+            return analyse(src, classes[ti], offers, succ, fail, sub, transitive, flag), limit
+
+        def report(layer, route, c, oc, e, hist, oi, ti, qi, limit):
+            """Record a violation; True when the case must stop (non-termination)."""
+            src, obj, flag = objs[oi]
+            tgt = classes[ti]
+            if route != "adapt" and not c.startswith("nontermination"):
+                # same complaint from the manager itself for this very
+                # object and target => it is the manager's defect, and is
+                # reported under the manager's key (one key per defect)
+                seen = INFO["last"]
+                c2, _ = check_manager_route("adapt", m, obj, tgt, e, offers, sub, limit, profiled)
+                INFO["last"] = seen
+                if c2 == c:
+                    layer, route = "m", "adapt (first seen via %s)" % route
+            key = ("manager/" if layer == "m" else "trait/%s/" % route) + c
+            if layer == "m" and route.startswith("global"):
+                key = "manager/global-function/" + c
+            if c.startswith("nontermination"):
+                key = c + ("/manager" if layer == "m" else "/trait")
+            ctx.violation(
+                key,
+                "%s via %s: adapting an instance of %s (object flag %d, history: %s) to %s: expected "
+                "status=%s min offers=%d admissible visible chains=%s; outcome class=%s observed=%s; "
+                "offers=%s; classes=%s; virtual=%s; late registrations=%s"
+                % (c, route, src.__name__, flag, hist, tgt.__name__, e.status, e.L,
+                   sorted(e.minset)[:6], oc, INFO["last"], desc["offers"], desc["classes"],
+                   desc["virtual"], desc.get("late_registrations")),
+                dict(desc, source=src.__name__, object_flag=flag, history=hist, query_index=qi,
+                     target=tgt.__name__, route=route,
+                     status=e.status, min_offers=e.L, admissible=sorted(e.minset)[:10],
+                     observed=INFO["last"]))
+            return c.startswith("nontermination")
+
+        for qi, (oi, ti) in enumerate(queries):
+            if qi == late_at and late_abc_registration(qi) == "too-large":
+                break
+            src, obj, flag = objs[oi]
+            tgt = classes[ti]
+            e, limit = expectation(oi, ti)
             if e.spec_not_judged:
                 ctx.count("specificity_not_judged_nontransitive_issubclass")
             if flagged or late:
@@ -983,7 +1116,7 @@ def run_case(ctx, gi):
                     if (e.status == "chain" and e.L == 1 and e.spec_relevant and prev[3] is not None
                             and prev[3] in e.minset and prev[1] == "chain" and prev[2] != e.minset):
                         ctx.count("history_single_step_candidates_differ_from_previous_object")
-            if "late_registration" in desc and qi >= late_at:
+            if live["abc"]:
                 ctx.count("queries_after_late_abc_registration")
             if e.status == "chain" and len(sample_queries) < 3 and (e.L > 1 or e.failing_candidate):
                 sample_queries.append({"source": src.__name__, "object_flag": flag, "target": tgt.__name__,
@@ -991,6 +1124,7 @@ def run_case(ctx, gi):
                                        "successful_sequences": len(e.allset), "history": hist})
             observed_adapt = None
             stop = False
+            violated = False
             for layer, route in routes:
                 INFO["last"] = None
                 if layer == "m":
@@ -1016,37 +1150,86 @@ def run_case(ctx, gi):
                             min(e.nmin, 3), e.ident_in_min, e.failing_candidate,
                             e.spec_relevant, oc, bool(c), hist)
                 if c:
-                    if route != "adapt" and not c.startswith("nontermination"):
-                        # same complaint from the manager itself for this very
-                        # object and target => it is the manager's defect, and is
-                        # reported under the manager's key (one key per defect)
-                        seen = INFO["last"]
-                        c2, _ = check_manager_route("adapt", m, obj, tgt, e, offers, sub, limit, profiled)
-                        INFO["last"] = seen
-                        if c2 == c:
-                            layer, route = "m", "adapt (first seen via %s)" % route
-                    key = ("manager/" if layer == "m" else "trait/%s/" % route) + c
-                    if layer == "m" and route.startswith("global"):
-                        key = "manager/global-function/" + c
-                    if c.startswith("nontermination"):
-                        key = c + ("/manager" if layer == "m" else "/trait")
-                    ctx.violation(
-                        key,
-                        "%s via %s: adapting an instance of %s (object flag %d, history: %s) to %s: expected "
-                        "status=%s min offers=%d admissible visible chains=%s; outcome class=%s observed=%s; "
-                        "offers=%s; classes=%s; virtual=%s; late registration=%s"
-                        % (c, route, src.__name__, flag, hist, tgt.__name__, e.status, e.L,
-                           sorted(e.minset)[:6], oc, INFO["last"], desc["offers"], desc["classes"],
-                           desc["virtual"], desc.get("late_registration")),
-                        dict(desc, source=src.__name__, object_flag=flag, history=hist, query_index=qi,
-                             target=tgt.__name__, route=route,
-                             status=e.status, min_offers=e.L, admissible=sorted(e.minset)[:10],
-                             observed=INFO["last"]))
-                    if c.startswith("nontermination"):
-                        stop = True
+                    violated = True
+                    stop = report(layer, route, c, oc, e, hist, oi, ti, qi, limit)
                     break            # this query's history stops at its first violation
             if stop:
                 return
+            # ---- re-assignment: the SAME object to the same trait of the same
+            # holder instance, after what adapt(obj, target) yields may have
+            # changed (object flag flipped, offer registered on the live manager,
+            # late ABC registration); the stored value / shadow after the second
+            # assignment is judged against the enumeration at that moment
+            if not violated and rng.random() < 0.08:
+                rroute = rng.choice(REASSIGN_ROUTES)
+                INFO["last"] = None
+                c1, oc1 = check_trait_route(rroute, h, ti, obj, e, offers, sub, limit, profiled, ctx)
+                ctx.ev()
+                ctx.count("trait_assignments")
+                if c1:
+                    if report("t", rroute, c1, oc1, e, hist, oi, ti, qi, limit):
+                        return
+                else:
+                    kinds = []
+                    if flagged:
+                        kinds += ["flag-flipped"] * 4
+                    if live["general"] < 1:
+                        kinds += ["offer-registered"] * 3
+                    if live["own_null"] < 1 and e.status != "provides":
+                        # own stratum: a null adapter registered for the object's
+                        # own type, after which adapt() answers the object itself
+                        kinds += ["null-adapter-for-own-type-registered"]
+                    if live["abc"] < (2 if late else 1) and any(isinstance(c, abc.ABCMeta) for c in classes):
+                        kinds += ["abc-registered"]
+                    change = rng.choice(kinds) if kinds else "nothing"
+                    if change == "flag-flipped":
+                        flag = objs[oi][2] = rng.choice([f for f in range(4) if f != flag])
+                        obj._c17_flag = flag
+                    elif change == "offer-registered":
+                        if live_offer_registration(qi, src, tgt) != "done":
+                            change = "nothing"
+                    elif change == "null-adapter-for-own-type-registered":
+                        if live_offer_registration(qi, src, tgt, own_null=True) != "done":
+                            change = "nothing"
+                    elif change == "abc-registered":
+                        r = late_abc_registration(qi)
+                        if r == "too-large":
+                            break
+                        if r != "done":
+                            change = "nothing"
+                    e2, limit = expectation(oi, ti)
+                    answer_changed = (e2.status, e2.minset) != (e.status, e.minset)
+                    hist2 = "same-object-reassigned-after-%s%s" % (
+                        change, "-answer-changed" if answer_changed else "")
+                    INFO["last"] = None
+                    slot_before = adapted_slot(rroute, ti)
+                    c2, oc2 = check_trait_route(rroute, h, ti, obj, e2, offers, sub, limit, profiled, ctx)
+                    if c2 and not c2.startswith("nontermination") and slot_before is not MISSING \
+                            and adapted_slot(rroute, ti) is slot_before:
+                        # observation, not inference: the adapted value exposed by
+                        # the trait is the very object from before this assignment,
+                        # and it is not what the manager answers now
+                        seen = INFO["last"]
+                        now = guarded(lambda: m.adapt(obj, tgt, None), limit, profiled)
+                        INFO["last"] = seen
+                        if now[0] == "ok" and describe(now[1], obj) != describe(slot_before, obj):
+                            c2 = "reassigned-same-object/keeps-the-earlier-adapted-value" + (
+                                "-when-adapt-now-returns-the-object-itself" if now[1] is obj else "")
+                    ctx.ev()
+                    ctx.count("trait_assignments")
+                    ctx.count("reassignments_of_same_object")
+                    ctx.count("reassignments_after_" + change)
+                    if answer_changed:
+                        ctx.count("reassignments_with_changed_adaptation_answer")
+                        ctx.count("reassignments_with_changed_answer_via_" + rroute)
+                        if e.status == "chain" and e2.status == "chain":
+                            ctx.count("reassignments_chain_to_different_chain")
+                    ctx.sig(flavour, rroute, "reassign", change, e.status, e2.status, answer_changed,
+                            min(e2.L, 5), oc2, bool(c2))
+                    if c2:
+                        if report("t", rroute, c2, oc2, e2, hist2, oi, ti, qi, limit):
+                            return
+                    e = e2
             last_seen[(src, ti)] = (oi, e.status, e.minset, observed_adapt)
         if sample_queries and len(ctx.samples) < 4:
             ctx.sample(dict(desc, queries=sample_queries))
